@@ -239,6 +239,9 @@ static int process_completed_fragment(sqfs_block_processor_t *proc,
 
 		if (proc->fblk_lookup_error != 0) {
 			err = proc->fblk_lookup_error;
+			/* the chunk made it into the table, which owns it */
+			if (entry != NULL)
+				chunk = NULL;
 			goto fail;
 		}
 
